@@ -122,6 +122,21 @@ Proof.
   - apply gen_commit_current_term.
 Qed.
 
+(* MONOTONE: along every schedule a node's term never decreases, and its commit index decreases only when that
+   node crashes and restarts (commit_index is volatile). *)
+Theorem C01_terms_never_decrease : forall n ab mp tr ops1 ops2 i, i < n ->
+  term (nth_node (nodes (grun (cluster n ab mp tr) gen_rules ops1)) i)
+  <= term (nth_node (nodes (grun (cluster n ab mp tr) gen_rules (ops1 ++ ops2))) i).
+Proof.
+  intros n ab mp tr ops1 ops2 i Hi. apply (terms_never_decrease (cluster n ab mp tr) gen_rules); auto; gen_hyps n.
+Qed.
+Theorem C01_commit_step_monotone : forall n ab mp tr ops o i, i < n ->
+  commit (nth_node (nodes (grun (cluster n ab mp tr) gen_rules ops)) i)
+  <= commit (nth_node (nodes (grun (cluster n ab mp tr) gen_rules (ops ++ [o]))) i) \/ o = GRestart i.
+Proof.
+  intros n ab mp tr ops o i Hi. apply (commit_step_monotone (cluster n ab mp tr) gen_rules); auto; gen_hyps n.
+Qed.
+
 (* LOG COMPACTION stays inside the committed prefix: in every reachable state, what a node has dropped from the
    front of its log (finalize_to + create_snapshot + truncate_log, in any order, any number of times, on any
    node) it had committed.  Together with C01_state_machine_safety (whose schedules include those steps) this
@@ -166,3 +181,5 @@ Print Assumptions C01_leader_completeness.
 Print Assumptions C01_state_machine_safety.
 Print Assumptions C01_leader_holds_committed.
 Print Assumptions C01_compaction_within_commit.
+Print Assumptions C01_terms_never_decrease.
+Print Assumptions C01_commit_step_monotone.
